@@ -1,4 +1,4 @@
 SPECIFICATION Spec
-CONSTANTS MaxSize = 6  MaxSmall = 6  Emit = FALSE
+CONSTANTS MaxSize = 6  MaxSmall = 6  AgedMax = 4  Emit = FALSE
 INVARIANTS Consistent
 CHECK_DEADLOCK FALSE
